@@ -8,6 +8,7 @@ import Glas.Gen.Parser
 import Glas.Gen.Policy
 import Glas.Model.Items
 import Glas.Model.Check
+import Glas.Model.LaCheck
 /-! Driver commands for M-syntax: `lex`, `parse` (generated lexer rules, generated parser program,
 generated tree-builder policy). -/
 namespace Glas.SyntaxCmd
@@ -106,6 +107,7 @@ def run (args : List String) : Option String :=
   match args with
   | ["items", h] => (unhex h).map itemsCmd
   | ["trivia-kinds"] => some triviaKinds
+  | ["la-peak"] => some s!"{Glas.LaCheck.laCheck glasProg} {(Glas.LaCheck.peak glasProg).getD 0} {glasProg.fuel}"
   | ["lex", h] => (unhex h).map lexCmd
   | ["parse", h] => (unhex h).map parseCmd
   | ["parsestat", h] => (unhex h).map parseStat
